@@ -562,12 +562,15 @@ def check_seq(pid, tier, seed):
             cov["concurrent_part"] = {
                 "what": "olc_db programs under the deterministic scheduler (same generator as C03); after the drained "
                         "concurrent phase: node counts == canonical tree of the final key set, reported memory use == "
-                        "bytes held from the allocator, counters never decreased",
+                        "bytes held from the allocator, counters never decreased, and the counters moved by no more "
+                        "than the structural events of at least one order of the successful writes that respects "
+                        "real-time precedence (every such order is replayed on the canonical model)",
                 "executions": cc.get("executions", 0),
                 "programs": cc.get("programs", 0),
                 "distinct_nontrivial_executions (a structural change overlapped another operation)": cd,
                 "structural_changes_under_contention": {k[29:]: v for k, v in cc.items()
                                                         if k.startswith("transitions_under_contention.")},
+                "counter_oracle": {k: v for k, v in cc.items() if k.startswith(("counter_oracle_", "diagnostic_"))},
                 "sample_program": cs[0] if cs else "",
             }
     if pid == "C08":
